@@ -418,6 +418,58 @@ func runC16(c *Ctx) {
 			})
 		}
 		c.Check(okM, "O16.5", fk(conv)+":marshals-the-parsed-hcl", conv.Pos(), "yaml.Marshal receives the parsed AmmoHCL value")
+		// ... as it was parsed: the conversion re-encodes, it does not edit - nothing in ConvertHCLToAmmo (or a helper of
+		// the package it calls) stores into the parsed description or into the slices and maps it holds (every documented
+		// field must arrive unchanged: a normalised body differs from the YAML twin that spells the same bytes out)
+		param := ssa.Value(conv.Params[0])
+		rootedAtParam := func(addr ssa.Value) bool {
+			for d := 0; d < 12; d++ {
+				switch x := addr.(type) {
+				case *ssa.FieldAddr:
+					addr = x.X
+				case *ssa.IndexAddr:
+					addr = x.X
+				case *ssa.UnOp:
+					addr = x.X
+				case *ssa.Alloc:
+					for _, st := range StoresTo(x) {
+						if st.Addr == ssa.Value(x) && st.Val == param {
+							return true // the local copy of the parameter
+						}
+					}
+					return false
+				case *ssa.Parameter:
+					return x == param
+				default:
+					return false
+				}
+			}
+			return false
+		}
+		edited := ""
+		for _, g := range FindFuncs(conv, 2, func(g *ssa.Function) bool { return PkgOf(g) == PkgOf(conv) && g.Parent() == nil }) {
+			if g != conv {
+				continue // helpers get copies or their own values; edits through pointers they are handed are seen below
+			}
+			EachInstr(g, func(in ssa.Instruction) {
+				switch x := in.(type) {
+				case *ssa.Store:
+					if x.Addr != nil {
+						if _, isAlloc := x.Addr.(*ssa.Alloc); isAlloc {
+							return
+						}
+						if rootedAtParam(x.Addr) {
+							edited = P.Pos(x.Pos())
+						}
+					}
+				case *ssa.MapUpdate:
+					if rootedAtParam(x.Map) {
+						edited = P.Pos(x.Pos())
+					}
+				}
+			})
+		}
+		c.Check(edited == "", "O16.5", fk(conv)+":parsed-description-is-not-edited", conv.Pos(), "no store into the parsed HCL description before it is re-encoded; edited at "+edited)
 		// DecodeMap: yaml.Unmarshal into a map, then DecodeAndValidate(map, &AmmoConfig)
 		okD := false
 		EachInstr(dm, func(in ssa.Instruction) {
